@@ -64,6 +64,10 @@ type recorder struct {
 	holdClose    int32         // the next Close stays inside the user method until released (or 100 ms)
 	closeEntered chan struct{}
 	closeRelease chan struct{}
+	// the next Update dwells (NAR): one shot
+	dwellUpdateOnce int32
+	updEntered      chan struct{}
+	prepEntered     chan struct{} // signalled by a dwelling PrepareSnapshot
 	// dwell (ns) inside PrepareSnapshot / Sync, set by the SYNCX operation
 	dwellPrepare int64
 	dwellSync    int64
@@ -84,7 +88,8 @@ func newRecorder(seed uint64) *recorder {
 	return &recorder{closedC: map[uint64]chan struct{}{}, blockEntered: make(chan struct{}, 64),
 		release: make(chan struct{}), rnd: vh.NewRand(seed),
 		closeEntered: make(chan struct{}, 8), closeRelease: make(chan struct{}, 8),
-		lingerEntered: make(chan struct{}, 8), lingerGate: make(chan struct{}, 8)}
+		lingerEntered: make(chan struct{}, 8), lingerGate: make(chan struct{}, 8),
+		updEntered: make(chan struct{}, 8), prepEntered: make(chan struct{}, 8)}
 }
 
 func (r *recorder) newInc() uint64 {
@@ -332,8 +337,35 @@ func (c *core) linger(flag *int32, done <-chan struct{}) bool {
 
 func (c *core) dwell(ns *int64) {
 	if d := atomic.LoadInt64(ns); d > 0 {
+		if ns == &c.r.dwellPrepare {
+			select {
+			case c.r.prepEntered <- struct{}{}:
+			default:
+			}
+		}
 		time.Sleep(time.Duration(d))
 	}
+}
+
+// updDwell: see recorder.dwellUpdateOnce
+func (c *core) updDwell() {
+	if atomic.CompareAndSwapInt32(&c.r.dwellUpdateOnce, 1, 0) {
+		select {
+		case c.r.updEntered <- struct{}{}:
+		default:
+		}
+		time.Sleep(60 * time.Millisecond)
+	}
+}
+
+// NALookup is the optional statemachine.IExtended read path
+func (c *core) NALookup(q []byte) ([]byte, error) {
+	c.r.enter(c.inc, "NALookup", nil)
+	v := atomic.LoadUint64(&c.count)
+	c.r.exit(c.inc, "NALookup", 0)
+	b := make([]byte, 8)
+	binary.LittleEndian.PutUint64(b, v)
+	return b, nil
 }
 
 func writeSnap(w io.Writer, applied, count uint64) error {
@@ -357,6 +389,7 @@ type plainSM struct{ core }
 
 func (s *plainSM) Update(e sm.Entry) (sm.Result, error) {
 	s.r.enter(s.inc, "Update", [][2]uint64{{e.Index, payloadOf(e.Cmd)}})
+	s.updDwell()
 	s.applied = e.Index
 	atomic.AddUint64(&s.count, 1)
 	s.r.exit(s.inc, "Update", 0)
@@ -399,6 +432,7 @@ func (s *concSM) Update(es []sm.Entry) ([]sm.Entry, error) {
 		ents[i] = [2]uint64{e.Index, payloadOf(e.Cmd)}
 	}
 	s.r.enter(s.inc, "Update", ents)
+	s.updDwell()
 	s.mu.Lock()
 	for i := range es {
 		s.applied = es[i].Index
@@ -469,6 +503,7 @@ func (s *diskSM) Update(es []sm.Entry) ([]sm.Entry, error) {
 		ents[i] = [2]uint64{e.Index, payloadOf(e.Cmd)}
 	}
 	s.r.enter(s.inc, "Update", ents)
+	s.updDwell()
 	s.mu.Lock()
 	for i := range es {
 		s.applied = es[i].Index
@@ -582,7 +617,7 @@ type live struct {
 	started bool
 	payload uint64
 	hostClosed bool
-	bUsed, s2Used bool
+	bUsed, s2Used, seUsed bool
 	dir     string
 	fs      gvfs.FS
 	wg      sync.WaitGroup
@@ -814,7 +849,51 @@ func (l *live) run() {
 		case "PENDSTOP":
 			l.pendStop()
 		case "STREAM2":
-			l.stream2()
+			l.streamTo([]uint64{2, 3}, false)
+		case "STREAMEXP": // one streamed replica + an exported snapshot request while PrepareSnapshot dwells
+			l.streamTo([]uint64{4}, true)
+		case "NAR": // local reads (NAReadLocalNode, StaleRead) while the apply worker is inside Update
+			if l.running {
+				rs, err := l.nh.ReadIndex(shardID, time.Second)
+				ok := false
+				if err == nil {
+					select {
+					case res := <-rs.ResultC():
+						ok = res.Completed()
+					case <-time.After(2 * time.Second):
+					}
+				}
+				if ok {
+					for len(l.r.updEntered) > 0 {
+						<-l.r.updEntered
+					}
+					atomic.StoreInt32(&l.r.dwellUpdateOnce, 1)
+					var wg sync.WaitGroup
+					wg.Add(1)
+					go func() { defer wg.Done(); l.propose() }()
+					select {
+					case <-l.r.updEntered:
+						l.st.Count("nar-update-in-flight:true")
+					case <-time.After(time.Second):
+						l.st.Count("nar-update-in-flight:false")
+					}
+					done := make(chan struct{})
+					go func() {
+						_, _ = l.nh.NAReadLocalNode(rs, []byte("q"))
+						_, _ = l.nh.StaleRead(shardID, "q")
+						close(done)
+					}()
+					select {
+					case <-done:
+					case <-time.After(2 * time.Second):
+					}
+					wg.Wait()
+					atomic.StoreInt32(&l.r.dwellUpdateOnce, 0)
+				}
+				if rs != nil {
+					rs.Release()
+				}
+			}
 		case "LR": // late read: ReadIndex completes, the shard is stopped, the client then reads locally while Close runs
 			if l.running {
 				rs, err := l.nh.ReadIndex(shardID, time.Second)
@@ -990,11 +1069,21 @@ func (l *live) pendStop() {
 
 // stream2: two new non-voting replicas of an on-disk shard whose log has been compacted join
 // at the same time: both need a streamed snapshot while PrepareSnapshot dwells.
-func (l *live) stream2() {
-	if !l.running || l.s2Used || l.c.kind != "disk" {
+func (l *live) streamTo(rids []uint64, export bool) {
+	if !l.running || l.c.kind != "disk" {
 		return
 	}
-	l.s2Used = true
+	if export {
+		if l.seUsed {
+			return
+		}
+		l.seUsed = true
+	} else {
+		if l.s2Used {
+			return
+		}
+		l.s2Used = true
+	}
 	for i := 0; i < 3; i++ {
 		l.propose()
 	}
@@ -1009,7 +1098,10 @@ func (l *live) stream2() {
 	rf := newRecorder(l.c.seed + 7)
 	var hosts []*dragonboat.NodeHost
 	base := l.nh.RaftAddress()
-	for rid := uint64(2); rid <= 3; rid++ {
+	for len(l.r.prepEntered) > 0 {
+		<-l.r.prepEntered
+	}
+	for _, rid := range rids {
 		addr := fmt.Sprintf("%s-f%d", base, rid)
 		nhc := config.NodeHostConfig{
 			NodeHostDir: fmt.Sprintf("%s-f%d", l.dir, rid), RTTMillisecond: 2, RaftAddress: addr,
@@ -1029,7 +1121,7 @@ func (l *live) stream2() {
 		cancel()
 	}
 	for i, nh := range hosts {
-		rid := uint64(i + 2)
+		rid := rids[i]
 		rc := config.Config{ReplicaID: rid, ShardID: shardID, ElectionRTT: 5, HeartbeatRTT: 1, CheckQuorum: true,
 			IsNonVoting: true, CompactionOverhead: 2}
 		if err := nh.StartOnDiskReplica(nil, true, func(uint64, uint64) sm.IOnDiskStateMachine {
@@ -1038,11 +1130,21 @@ func (l *live) stream2() {
 			l.st.Count("start-error")
 		}
 	}
+	if export {
+		// the exported snapshot is requested while the stream job is inside PrepareSnapshot
+		select {
+		case <-l.r.prepEntered:
+			l.st.Count("streamexp-prepare-in-flight:true")
+		case <-time.After(2 * time.Second):
+			l.st.Count("streamexp-prepare-in-flight:false")
+		}
+		l.export()
+	}
 	t0 := time.Now()
 	for time.Since(t0) < 3*time.Second && rf.sawExit("RecoverFromSnapshot") < len(hosts) {
 		time.Sleep(5 * time.Millisecond)
 	}
-	l.st.Count(fmt.Sprintf("stream2-recovered:%d", rf.sawExit("RecoverFromSnapshot")))
+	l.st.Count(fmt.Sprintf("stream%d-recovered:%d", len(rids), rf.sawExit("RecoverFromSnapshot")))
 	atomic.StoreInt64(&l.r.dwellPrepare, 0)
 	for _, nh := range hosts {
 		done := make(chan struct{})
@@ -1096,7 +1198,7 @@ func genLive(r *vh.Rand, id string, outDir string, tier string) string {
 	ops = append(ops, "START", fmt.Sprintf("P %d", 1+r.Intn(4)))
 	n := 4 + r.Intn(6)
 	for i := 0; i < n; i++ {
-		switch r.Intn(18) {
+		switch r.Intn(20) {
 		case 0, 1:
 			ops = append(ops, fmt.Sprintf("P %d", 1+r.Intn(5)))
 		case 2:
@@ -1128,9 +1230,11 @@ func genLive(r *vh.Rand, id string, outDir string, tier string) string {
 		case 16:
 			snapw = 1
 			ops = append(ops, "PENDSTOP")
+		case 18, 19:
+			ops = append(ops, "NAR")
 		case 17:
 			if kind == "disk" {
-				ops = append(ops, "STREAM2")
+				ops = append(ops, []string{"STREAM2", "STREAMEXP"}[r.Intn(2)])
 			} else {
 				snapw = 1
 				ops = append(ops, "PENDSTOP")
